@@ -27,13 +27,18 @@ type PSel struct {
 
 func P(tag string, sub ...PSel) PSel { return PSel{Tag: tag, Sub: sub} }
 
+// PD is a `fields` / `enumValues` selection with includeDeprecated: true.
+func PD(tag string, sub ...PSel) PSel { return PSel{Tag: tag, Arg: "true", Sub: sub} }
+
 func (p PSel) gql(b *strings.Builder) {
 	b.WriteString(p.Tag)
 	switch p.Tag {
 	case "__type":
 		fmt.Fprintf(b, "(name: %q)", p.Arg)
 	case "fields", "enumValues":
-		b.WriteString("(includeDeprecated: true)")
+		if p.Arg == "true" {
+			b.WriteString("(includeDeprecated: true)")
+		}
 	}
 	if len(p.Sub) > 0 {
 		b.WriteString(" { ")
@@ -81,10 +86,14 @@ func modelProbes(orig *Spec) [][]PSel {
 		P("inputFields", P("name"), P("type", refSel(3)...))))})
 	for _, n := range universe(orig) {
 		tp := PSel{Tag: "__type", Arg: n, Sub: []PSel{P("kind"), P("name"),
-			P("fields", P("name"), P("type", refSel(4)...), P("args", P("name"), P("type", refSel(4)...))),
+			PD("fields", P("name"), P("isDeprecated"), P("type", refSel(4)...), P("args", P("name"), P("type", refSel(4)...))),
 			P("interfaces", P("name")), P("possibleTypes", P("name")),
-			P("inputFields", P("name"), P("type", refSel(4)...)), P("enumValues", P("name"))}}
+			P("inputFields", P("name"), P("type", refSel(4)...)), PD("enumValues", P("name"))}}
 		out = append(out, []PSel{tp})
+		if t := orig.find(n); t != nil && (t.Kind == "object" || t.Kind == "interface" || t.Kind == "enum") {
+			out = append(out, []PSel{{Tag: "__type", Arg: n, Sub: []PSel{P("name"),
+				P("fields", P("name"), P("isDeprecated"), P("type", refSel(2)...)), P("enumValues", P("name"))}}})
+		}
 	}
 	for _, t := range orig.Types {
 		if t.Kind == "interface" || t.Kind == "union" || t.Kind == "object" && len(t.Ifaces) > 0 {
